@@ -144,6 +144,8 @@ type rewriter struct {
 	inSelect  map[ast.Node]bool // communication nodes of select clauses, rewritten together with their select
 	needVtime bool
 	timeName  string // local name of the "time" import of the file, "" if none
+	ioName    string // local name of the "io" import of the file, "" if none
+	needVio   bool
 	errs      []string
 	uniq      int
 }
@@ -348,8 +350,15 @@ func (r *rewriter) rewriteFile(f *ast.File) bool {
 	changed := false
 	// imports
 	r.timeName = ""
+	r.ioName = ""
 	for _, is := range f.Imports {
 		p, _ := strconv.Unquote(is.Path.Value)
+		if p == "io" {
+			r.ioName = "io"
+			if is.Name != nil {
+				r.ioName = is.Name.Name
+			}
+		}
 		if p == "time" {
 			r.timeName = "time"
 			if is.Name != nil {
@@ -399,6 +408,18 @@ func (r *rewriter) rewriteFile(f *ast.File) bool {
 				}
 			}
 		case *ast.SelectorExpr:
+			if r.feat.sched && r.ioName != "" {
+				if id, ok := n.X.(*ast.Ident); ok {
+					if pn, ok := r.info.Uses[id].(*types.PkgName); ok && pn.Imported().Path() == "io" {
+						switch n.Sel.Name {
+						case "Pipe", "PipeReader", "PipeWriter":
+							n.X = ast.NewIdent("vio")
+							r.needVio = true
+							r.sites++
+						}
+					}
+				}
+			}
 			if r.feat.sched && r.timeName != "" {
 				if id, ok := n.X.(*ast.Ident); ok {
 					if pn, ok := r.info.Uses[id].(*types.PkgName); ok && pn.Imported().Path() == "time" {
@@ -640,6 +661,13 @@ func (r *rewriter) rewriteFile(f *ast.File) bool {
 	}
 	if r.needVmap {
 		astutil.AddNamedImport(r.fset, f, "vmap", modPath+"/zverif/vmap")
+	}
+	if r.needVio {
+		astutil.AddNamedImport(r.fset, f, "vio", modPath+"/zverif/vio")
+		// keep the io import used
+		f.Decls = append(f.Decls, &ast.GenDecl{Tok: token.VAR, Specs: []ast.Spec{&ast.ValueSpec{
+			Names: []*ast.Ident{ast.NewIdent("_")}, Type: sel(r.ioName, "Reader")}}})
+		r.needVio = false
 	}
 	if r.needVtime {
 		astutil.AddNamedImport(r.fset, f, "vtime", modPath+"/zverif/vtime")
